@@ -7,6 +7,7 @@ import (
 	"net/http"
 	"strings"
 
+	"github.com/fiorix/go-diameter/diam/sm"
 	"github.com/gin-gonic/gin"
 
 	chf_context "github.com/free5gc/chf/internal/context"
@@ -14,6 +15,7 @@ import (
 	"github.com/free5gc/chf/internal/sbi/processor"
 	"github.com/free5gc/chf/pkg/factory"
 	vx "github.com/free5gc/chf/zzvx"
+	Nchf_ConvergedCharging "github.com/free5gc/openapi/chf/ConvergedCharging"
 )
 
 // zzApp is the application object the server is wired to in the harness.
@@ -124,5 +126,49 @@ func ZZ_C11_RechargePut() {
 	if !panicked {
 		st := vx.HTTPStatus(c)
 		vx.Assert("recharge answered 2xx or 4xx", (st >= 200 && st <= 299) || (st >= 400 && st <= 499))
+	}
+}
+
+// C12 (recharging route): PUT .../recharging/<supi>_<ratingGroup> for a known
+// subscriber, the rating group written as 1..3 arbitrary decimal digits
+// (leading zeros included): answered 204, exactly one notification, and it
+// names the rating group whose decimal value was given.
+//
+//gosx:property=C12 tier=quick unwind=24
+func ZZ_C12_RechargeRoute() {
+	ctx := chf_context.GetSelf()
+	ctx.RatingCfg = &sm.Settings{OriginHost: "chf-rating", OriginRealm: "realm"}
+	ctx.AbmfCfg = &sm.Settings{OriginHost: "chf-abmf", OriginRealm: "realm"}
+	factory.ChfConfig = &factory.Config{Configuration: &factory.Configuration{VolumeThresholdRate: 0.8}}
+	const supi = "imsi-208930000000001"
+	ue, err := ctx.NewCHFUe(supi)
+	vx.Assert("subscriber context created", err == nil && ue != nil)
+	if err != nil || ue == nil {
+		return
+	}
+	ue.NotifyUri = "http://smf.example/notify"
+	app := &zzApp{cfg: &factory.Config{Configuration: &factory.Configuration{}}, ctx: ctx, p: &processor.Processor{}}
+	s := &Server{ServerChf: app}
+	n := 1 + vx.Choice("digits", 3)
+	d := vx.String("rg", n)
+	want := int32(0)
+	for i := 0; i < n; i++ {
+		vx.Assume(d[i] >= '0' && d[i] <= '9')
+		want = want*10 + int32(d[i]-'0')
+	}
+	c := &gin.Context{}
+	vx.HTTPSetParam(c, "rechargingInfo", supi+"_"+d)
+	n0 := vx.Notifications()
+	s.RechargePut(c)
+	vx.Assert("recharge for a known subscriber answered 204", vx.HTTPStatus(c) == 204)
+	vx.Assert("exactly one notification", vx.Notifications() == n0+1)
+	if vx.Notifications() != n0+1 {
+		return
+	}
+	body, ok := vx.NotificationBody(n0).(*Nchf_ConvergedCharging.PostChargingNotificationRequest)
+	vx.Assert("notification request recorded", ok && body != nil && body.ChargingNotifyRequest != nil)
+	if ok && body != nil && body.ChargingNotifyRequest != nil {
+		det := body.ChargingNotifyRequest.ReauthorizationDetails
+		vx.Assert("the notification names the rating group given in the path", len(det) == 1 && det[0].RatingGroup == want)
 	}
 }
